@@ -16,7 +16,18 @@
 //	                          config (constant D, MaxElapsedTime 3*D = one advance: a record's backoff says Stop once
 //	                          the epoch of its construction / last Reset has ended). `cb OP`: an exit callback
 //	                          (WithExitCb) that calls OP(key, …) on the same object for every routine that returned
-//	                          ok or an error, logged as a call of its own (inv/ret) from inside the callback
+//	                          ok or an error, logged as a call of its own (inv/ret) from inside the callback.
+//	                          Further words (same behaviour, other library entry points): `negdelay` (WithReleaseDelay
+//	                          of -D), `nilretry` (WithRetry(nil) after WithBackoff: retry disabled; only with noretry),
+//	                          `logger` (NewKeyedWithLogger / NewKeyedRefCountWithLogger with a discarding logrus logger)
+//	reset K [COND…] | restart K [COND…] | resetall [COND…] | restartall [COND…]
+//	                          with condition functions: `nil` (a nil function), `key=K`, `par=P` (data%2 == P)
+//	cancelroot                cancels the root context that is installed (logged first as `env cancelroot`): SyncKeys,
+//	                          ResetRoutine, RestartRoutine then treat it as no context, SetKey(start) starts with it
+//	clearctx                  ClearContext() (logged, and modelled, as setctx 0 norestart)
+//	optcheck                  direct checks of entry points that the model does not describe: a nil constructor
+//	                          callback (NewKeyed(nil): keys exist, data is the zero value, nothing runs) and Release on
+//	                          a nil *KeyedRef; a failed check is logged as `env fail …`, a line the model driver rejects
 //	setctx C restart|norestart    C = 0 is the nil context, 1..3 are distinct live contexts
 //	setkey K start|nostart | removekey K | synckeys restart|norestart K... | getkey K | getkeys | getkeysdata
 //	reset K | restart K | resetall | restartall
@@ -38,6 +49,7 @@ import (
 	"context"
 	"errors"
 	"fmt"
+	"io"
 	"math/rand"
 	"os"
 	"runtime/pprof"
@@ -51,6 +63,7 @@ import (
 	ubackoff "github.com/aperturerobotics/util/backoff"
 	"github.com/aperturerobotics/util/keyed"
 	cbackoff "github.com/cenkalti/backoff/v4"
+	"github.com/sirupsen/logrus"
 
 	"verifharness/comp"
 	"verifharness/hist"
@@ -103,13 +116,14 @@ func (b *scriptedBackoff) Reset() { b.pos = 0 }
 // api is the part of Keyed / KeyedRefCount the driver uses.
 type api struct {
 	setContext      func(ctx context.Context, restart bool)
+	clearContext    func()
 	getKeys         func() []int
 	getKeysWithData func() []keyed.KeyWithData[int, int]
 	getKey          func(int) (int, bool)
-	reset           func(int) (bool, bool)
-	restart         func(int) (bool, bool)
-	resetAll        func() (int, int)
-	restartAll      func() (int, int)
+	reset           func(int, ...func(int, int) bool) (bool, bool)
+	restart         func(int, ...func(int, int) bool) (bool, bool)
+	resetAll        func(...func(int, int) bool) (int, int)
+	restartAll      func(...func(int, int) bool) (int, int)
 	setKey          func(int, bool) (int, bool)
 	removeKey       func(int) bool
 	syncKeys        func([]int, bool) ([]int, []int)
@@ -152,6 +166,7 @@ func exec(script []string, opt comp.Options) (res comp.Result) {
 
 	// ---- configuration
 	rc, delay, retry, fresh, cbKind := false, false, -1, false, ""
+	negDelay, nilRetry, withLogger := false, false, false
 	if len(script) > 0 {
 		if f := strings.Fields(script[0]); len(f) >= 4 && f[0] == "config" {
 			rc, delay = f[1] == "rc", f[2] == "delay"
@@ -159,9 +174,18 @@ func exec(script []string, opt comp.Options) (res comp.Result) {
 				retry, _ = strconv.Atoi(f[4])
 			}
 			fresh = f[3] == "fresh"
-			for i := 3; i+1 < len(f); i++ {
-				if f[i] == "cb" {
-					cbKind = f[i+1]
+			for i := 3; i < len(f); i++ {
+				switch f[i] {
+				case "cb":
+					if i+1 < len(f) {
+						cbKind = f[i+1]
+					}
+				case "negdelay":
+					negDelay = true
+				case "nilretry":
+					nilRetry = retry < 0 && !fresh
+				case "logger":
+					withLogger = true
 				}
 			}
 		}
@@ -234,8 +258,17 @@ func exec(script []string, opt comp.Options) (res comp.Result) {
 		}, d
 	}
 	var opts []keyed.Option[int, int]
-	if delay {
+	if delay && negDelay {
+		tags.Add("opt-negative-delay")
+		opts = append(opts, keyed.WithReleaseDelay[int, int](-D)) // the absolute value counts
+	} else if delay {
 		opts = append(opts, keyed.WithReleaseDelay[int, int](D))
+	}
+	if nilRetry {
+		// a nil config disables the retry that an earlier option configured
+		tags.Add("opt-nil-retry")
+		opts = append(opts, keyed.WithBackoff[int, int](func(int) cbackoff.BackOff { return &scriptedBackoff{n: 50} }),
+			keyed.WithRetry[int, int](nil))
 	}
 	if fresh {
 		ms := uint32(D / time.Millisecond)
@@ -259,35 +292,60 @@ func exec(script []string, opt comp.Options) (res comp.Result) {
 			cbCall(key)
 		}))
 	}
+	var le *logrus.Entry
+	if withLogger {
+		tags.Add("opt-logger")
+		lg := logrus.New()
+		lg.SetOutput(io.Discard)
+		lg.SetLevel(logrus.DebugLevel)
+		le = logrus.NewEntry(lg)
+	}
 	if rc {
 		k := keyed.NewKeyedRefCount(ctor, opts...)
-		a = api{setContext: k.SetContext, getKeys: k.GetKeys, getKeysWithData: k.GetKeysWithData, getKey: k.GetKey,
-			reset: func(key int) (bool, bool) { return k.ResetRoutine(key) }, restart: func(key int) (bool, bool) { return k.RestartRoutine(key) },
-			resetAll: func() (int, int) { return k.ResetAllRoutines() }, restartAll: func() (int, int) { return k.RestartAllRoutines() },
+		if withLogger {
+			k = keyed.NewKeyedRefCountWithLogger(ctor, le, opts...)
+		}
+		a = api{setContext: k.SetContext, clearContext: k.ClearContext, getKeys: k.GetKeys, getKeysWithData: k.GetKeysWithData, getKey: k.GetKey,
+			reset: k.ResetRoutine, restart: k.RestartRoutine, resetAll: k.ResetAllRoutines, restartAll: k.RestartAllRoutines,
 			addRef: k.AddKeyRef, rcRemove: k.RemoveKey}
 	} else {
 		k := keyed.NewKeyed(ctor, opts...)
-		a = api{setContext: k.SetContext, getKeys: k.GetKeys, getKeysWithData: k.GetKeysWithData, getKey: k.GetKey,
-			reset: func(key int) (bool, bool) { return k.ResetRoutine(key) }, restart: func(key int) (bool, bool) { return k.RestartRoutine(key) },
-			resetAll: func() (int, int) { return k.ResetAllRoutines() }, restartAll: func() (int, int) { return k.RestartAllRoutines() },
+		if withLogger {
+			k = keyed.NewKeyedWithLogger(ctor, le, opts...)
+		}
+		a = api{setContext: k.SetContext, clearContext: k.ClearContext, getKeys: k.GetKeys, getKeysWithData: k.GetKeysWithData, getKey: k.GetKey,
+			reset: k.ResetRoutine, restart: k.RestartRoutine, resetAll: k.ResetAllRoutines, restartAll: k.RestartAllRoutines,
 			setKey: k.SetKey, removeKey: k.RemoveKey, syncKeys: k.SyncKeys}
 	}
 
 	// ---- contexts
+	// the script names root contexts 1, 2, …; a context that was cancelled (`cancelroot`) is never installed
+	// again: the name then stands for a new context with a new id (name + 10, + 20, …)
 	ctxs := map[int]context.Context{}
+	ctxCancel := map[int]context.CancelFunc{}
+	incarn := map[int]int{}
 	var cancels []context.CancelFunc
+	ctxID := func(c int) int {
+		if c == 0 {
+			return 0
+		}
+		return c + 10*incarn[c]
+	}
 	getCtx := func(c int) context.Context {
 		if c == 0 {
 			return nil
 		}
-		if x, ok := ctxs[c]; ok {
+		id := ctxID(c)
+		if x, ok := ctxs[id]; ok {
 			return x
 		}
 		x, cancel := context.WithCancel(context.Background())
-		ctxs[c] = x
+		ctxs[id] = x
+		ctxCancel[id] = cancel
 		cancels = append(cancels, cancel)
 		return x
 	}
+	installed := 0 // script name of the root context the driver installed last (0: none, or it was cancelled)
 
 	var refs []*keyed.KeyedRef[int, int]
 	released := map[int]bool{}
@@ -555,6 +613,31 @@ func exec(script []string, opt comp.Options) (res comp.Result) {
 		}
 		return "", nil, false
 	}
+	// conds builds the condition functions of ResetRoutine & co. from the words `nil`, `key=K`, `par=P`
+	// (a nil function, "the key is K", "data%2 == P") and returns the words as they are logged
+	conds := func(ws []string) ([]func(int, int) bool, string) {
+		var cs []func(int, int) bool
+		logged := ""
+		for _, w := range ws {
+			switch {
+			case w == "nil":
+				cs = append(cs, nil)
+			case strings.HasPrefix(w, "key="):
+				kk := atoi(w[4:])
+				cs = append(cs, func(key, _ int) bool { return key == kk })
+			case strings.HasPrefix(w, "par="):
+				pp := atoi(w[4:])
+				cs = append(cs, func(_, data int) bool { return data%2 == pp })
+			default:
+				continue
+			}
+			logged += " " + w
+		}
+		if len(cs) > 0 {
+			tags.Add("condition-functions")
+		}
+		return cs, logged
+	}
 	pendingRemoval := map[int]bool{}
 	for si, step := range script {
 		f := strings.Fields(step)
@@ -582,10 +665,35 @@ func exec(script []string, opt comp.Options) (res comp.Result) {
 			if c == 0 {
 				tags.Add("clear-context")
 			}
-			call(fmt.Sprintf("setctx %d %s", c, map[bool]string{true: "restart", false: "norestart"}[restart]), func() string {
+			installed = c
+			call(fmt.Sprintf("setctx %d %s", ctxID(c), map[bool]string{true: "restart", false: "norestart"}[restart]), func() string {
 				a.setContext(ctx, restart)
 				return "unit"
 			})
+		case "cancelroot":
+			// the root context that is installed is cancelled while it is installed (no call is in progress)
+			if installed == 0 || hung.Load() {
+				continue
+			}
+			if !logIdle("env cancelroot") {
+				continue
+			}
+			tags.Add("root-cancelled-while-installed")
+			ctxCancel[ctxID(installed)]()
+			incarn[installed]++
+			installed = 0
+		case "clearctx":
+			tags.Add("clear-context")
+			installed = 0
+			call("setctx 0 norestart", func() string {
+				a.clearContext()
+				return "unit"
+			})
+		case "optcheck":
+			tags.Add("opt-check")
+			if msg := optCheck(); msg != "" {
+				log.Add("env fail %s", msg)
+			}
 		case "setkey":
 			if rc {
 				continue
@@ -661,27 +769,31 @@ func exec(script []string, opt comp.Options) (res comp.Result) {
 				tags.Add("reset-leaving-key")
 				delete(pendingRemoval, k)
 			}
-			call(fmt.Sprintf("reset %d", k), func() string {
-				e, r := a.reset(k)
+			cs, cw := conds(f[2:])
+			call(fmt.Sprintf("reset %d%s", k, cw), func() string {
+				e, r := a.reset(k, cs...)
 				return fmt.Sprintf("er %s %s", bs(e), bs(r))
 			})
 		case "restart":
 			k := atoi(arg(1))
 			supersede(k)
-			call(fmt.Sprintf("restart %d", k), func() string {
-				e, r := a.restart(k)
+			cs, cw := conds(f[2:])
+			call(fmt.Sprintf("restart %d%s", k, cw), func() string {
+				e, r := a.restart(k, cs...)
 				return fmt.Sprintf("er %s %s", bs(e), bs(r))
 			})
 		case "resetall":
 			supersede(-1)
-			call("resetall", func() string {
-				n, t := a.resetAll()
+			cs, cw := conds(f[1:])
+			call("resetall"+cw, func() string {
+				n, t := a.resetAll(cs...)
 				return fmt.Sprintf("counts %d %d", n, t)
 			})
 		case "restartall":
 			supersede(-1)
-			call("restartall", func() string {
-				n, t := a.restartAll()
+			cs, cw := conds(f[1:])
+			call("restartall"+cw, func() string {
+				n, t := a.restartAll(cs...)
 				return fmt.Sprintf("counts %d %d", n, t)
 			})
 		case "addref":
@@ -928,6 +1040,49 @@ func exec(script []string, opt comp.Options) (res comp.Result) {
 	return res
 }
 
+// optCheck exercises entry points that the model does not describe, on objects of its own, and checks the
+// documented behaviour directly. "" = fine.
+func optCheck() (msg string) {
+	defer func() {
+		if p := recover(); p != nil {
+			msg = fmt.Sprintf("panic: %v", p)
+		}
+	}()
+	// a nil constructor callback: keys exist, their data is the zero value, there is nothing to run
+	k := keyed.NewKeyed[int, int](nil)
+	ctx, cancel := context.WithCancel(context.Background())
+	defer cancel()
+	k.SetContext(ctx, false)
+	if d, e := k.SetKey(7, true); d != 0 || e {
+		return "nilctor-setkey"
+	}
+	if d, e := k.GetKey(7); d != 0 || !e {
+		return "nilctor-getkey"
+	}
+	if ex, rs := k.ResetRoutine(7); !ex || !rs {
+		return "nilctor-reset"
+	}
+	if ks := k.GetKeys(); len(ks) != 1 || ks[0] != 7 {
+		return "nilctor-getkeys"
+	}
+	if !k.RemoveKey(7) || len(k.GetKeys()) != 0 {
+		return "nilctor-removekey"
+	}
+	krc := keyed.NewKeyedRefCount[int, int](nil)
+	ref, d, e := krc.AddKeyRef(3)
+	if ref == nil || d != 0 || e {
+		return "nilctor-addref"
+	}
+	ref.Release()
+	if len(krc.GetKeys()) != 0 {
+		return "nilctor-release"
+	}
+	// Release on a nil reference does nothing
+	var nilRef *keyed.KeyedRef[int, int]
+	nilRef.Release()
+	return ""
+}
+
 func gen(rng *rand.Rand, tier string) []string {
 	steps := 12 + rng.Intn(18)
 	if tier == "thorough" {
@@ -962,11 +1117,42 @@ func gen(rng *rand.Rand, tier string) []string {
 		// an exit callback that calls back into the object
 		cfg += " cb " + []string{"setkey", "getkey", "removekey"}[rng.Intn(3)]
 	}
+	// the same behaviour through other entry points of the library
+	if delay && rng.Intn(4) == 0 {
+		cfg += " negdelay"
+	}
+	if retry == -1 && rng.Intn(4) == 0 {
+		cfg += " nilretry"
+	}
+	if rng.Intn(4) == 0 {
+		cfg += " logger"
+	}
 	out := []string{cfg}
+	if rng.Intn(8) == 0 {
+		out = append(out, "optcheck")
+	}
 	nkeys := 2 + rng.Intn(4) // key universe 1..nkeys (≤ 5)
 	key := func() int { return 1 + rng.Intn(nkeys) }
 	how := func() string { return []string{"ok", "err", "err", "cancel"}[rng.Intn(4)] }
 	rs := func() string { return []string{"restart", "norestart"}[rng.Intn(2)] }
+	// condition functions of ResetRoutine & co.: none (mostly), or one or two of nil / key=K / par=P
+	condWords := func() string {
+		if rng.Intn(3) != 0 {
+			return ""
+		}
+		s := ""
+		for n := 1 + rng.Intn(2); n > 0; n-- {
+			switch rng.Intn(4) {
+			case 0:
+				s += " nil"
+			case 1:
+				s += fmt.Sprintf(" key=%d", key())
+			default:
+				s += fmt.Sprintf(" par=%d", rng.Intn(2))
+			}
+		}
+		return s
+	}
 	nrefs := 0
 	var refKey []int // key of every reference taken so far (generator's view)
 	addref := func(k int) string { refKey = append(refKey, k); nrefs++; return fmt.Sprintf("addref %d", k) }
@@ -1079,16 +1265,44 @@ func gen(rng *rand.Rand, tier string) []string {
 		case r < 56:
 			out = append(out, fmt.Sprintf("retk %d %s", key(), how()))
 		case r < 64:
-			out = append(out, fmt.Sprintf("restart %d", key()))
+			out = append(out, fmt.Sprintf("restart %d", key())+condWords())
 		case r < 70:
-			out = append(out, fmt.Sprintf("reset %d", key()))
+			out = append(out, fmt.Sprintf("reset %d", key())+condWords())
 		case r < 73:
-			out = append(out, []string{"resetall", "restartall"}[rng.Intn(2)])
+			out = append(out, []string{"resetall", "restartall"}[rng.Intn(2)]+condWords())
 		case r < 80:
 			c := rng.Intn(3)
-			out = append(out, fmt.Sprintf("setctx %d %s", c, rs()))
+			if c == 0 && rng.Intn(2) == 0 {
+				out = append(out, "clearctx")
+			} else {
+				out = append(out, fmt.Sprintf("setctx %d %s", c, rs()))
+			}
 			if c == 0 {
 				out = append(out, "probeall")
+			}
+		case r >= 80 && r < 82 && !nilScenario:
+			// the installed root context is cancelled; then a call that looks at it, or one that does not
+			k := key()
+			out = append(out, "cancelroot", "probeall")
+			switch rng.Intn(5) {
+			case 0:
+				if !rc {
+					out = append(out, fmt.Sprintf("synckeys %s %d %d", rs(), k, key()))
+				} else {
+					out = append(out, addref(k))
+				}
+			case 1:
+				out = append(out, fmt.Sprintf("reset %d", k))
+			case 2:
+				out = append(out, fmt.Sprintf("restart %d", k))
+			case 3:
+				if !rc {
+					out = append(out, fmt.Sprintf("setkey %d start", k))
+				} else {
+					out = append(out, "restartall")
+				}
+			default:
+				out = append(out, "resetall")
 			}
 		case r < 81 && nilScenario:
 			k := key()
@@ -1112,6 +1326,15 @@ func init() {
 	comp.Register(&comp.Component{
 		Name: "keyed", Model: "keyed", Gen: gen, Exec: exec,
 		Corpus: [][]string{
+			// the root context is cancelled while installed: SyncKeys / ResetRoutine / RestartRoutine forget it
+			// (nothing is started, RestartRoutine reports false); SetKey(start) starts with the cancelled context
+			{"config plain nodelay noretry", "setctx 1 norestart", "setkey 1 start", "settle", "cancelroot", "probeall", "restart 1", "setkey 2 start", "getkeys", "retk 1 cancel", "advance", "setctx 1 norestart", "advance", "probeall"},
+			{"config plain delay retry 1", "setctx 1 norestart", "setkey 1 start", "settle", "cancelroot", "setkey 2 start", "advance", "synckeys restart 1 2 3", "advance", "retk 1 cancel", "removekey 2", "getkeys", "advance", "getkeys", "setctx 2 restart", "advance", "probeall"},
+			{"config rc nodelay noretry", "setctx 2 norestart", "addref 1", "settle", "cancelroot", "reset 1", "getkeysdata", "retk 1 cancel", "advance", "restartall", "setctx 2 norestart", "advance", "probeall"},
+			{"config plain nodelay fresh", "setctx 1 norestart", "cancelroot", "setkey 1 start", "advance", "advance", "resetall", "setkey 2 start", "advance", "getkeysdata"},
+			// condition functions of ResetRoutine / RestartRoutine / …All: no match (also a lone nil) = nothing happens
+			{"config plain nodelay noretry", "setctx 1 norestart", "setkey 1 start", "setkey 2 start", "settle", "reset 1 par=0", "reset 1 par=1", "reset 1 nil", "restart 2 key=1", "restart 2 nil key=2", "getkeysdata", "resetall par=0", "getkeysdata", "restartall key=2 nil", "resetall nil", "getkeysdata", "advance", "probeall"},
+			{"config rc delay noretry logger", "setctx 1 norestart", "addref 1", "addref 2", "reset 2 par=1 key=7", "getkeysdata", "restartall par=0", "resetall key=1 par=1", "getkeysdata", "advance", "clearctx", "restart 1 key=1", "probeall"},
 			// C07-c3: WithRetry gives every record its own backoff object: a key that is new in an epoch and fails in
 			// it is retried although another key's backoff has run out; so is a key after ResetRoutine
 			{"config plain nodelay fresh", "setctx 1 norestart", "setkey 1 start", "settle", "retk 1 err", "advance", "retk 1 err", "advance", "setkey 2 start", "settle", "retk 2 err", "advance", "getkeys", "retk 2 ok", "advance"},
